@@ -54,9 +54,13 @@ def main(tier):
         if rng.random() < 0.3:
             ctxs.append([10.0 ** rng.uniform(-3, 3) for _ in range(rng.randint(1, 3))])
         cases.append({"seed": ck.seed * 1000 + i, "dtype": ["float32", "float32", "float16", "bfloat16"][i % 4], "activations": ["qint8", "qfloat8_e4m3fn", "qfloat8_e5m2"][i % 3],
-                      "momentum": rng.choice([0.0, 0.5, 0.75, 0.9, 0.99]), "layers": archs[i % len(archs)], "width": 8, "contexts": ctxs, "streamline": rng.random() < 0.7, "staging": i % 3 == 1})
+                      "momentum": rng.choice([0.0, 0.5, 0.75, 0.9, 0.99]), "layers": archs[i % len(archs)], "width": 8, "contexts": ctxs, "streamline": rng.random() < 0.7, "staging": i % 3 == 1, "reuse_ctx": len(ctxs) > 1 and rng.random() < 0.5})
     # directed: the running scale hits the sentinel value 1 exactly after the first batch (known finding F9)
     cases.append({"seed": 7, "dtype": "float32", "activations": "qint8", "momentum": 0.5, "layers": ["linear"], "width": 8, "contexts": [["sentinel", 3.0, 0.5]], "streamline": False, "directed": "sentinel"})
+    # directed: one Calibration object entered for three successive contexts (no streamlining, so that every context calibrates)
+    for k, (dt, act) in enumerate([("float32", "qint8"), ("float16", "qfloat8_e4m3fn"), ("bfloat16", "qint8"), ("float32", "qfloat8_e5m2")]):
+        cases.append({"seed": 900 + k, "dtype": dt, "activations": act, "momentum": [0.9, 0.5, 0.0, 0.75][k], "layers": archs[k], "width": 8,
+                      "contexts": [[1.0, 3.0], [20.0], [0.05, 7.0]], "streamline": False, "reuse_ctx": True})
     res = ck.impl("calib", {"cases": cases}, timeout=2400)
     if isinstance(res, dict):
         ck.violation("implementation worker crashed: " + res.get("stderr", "")[-300:], {"stderr": res.get("stderr")})
